@@ -9,6 +9,7 @@ import ZlModel.Generated.Tables
 import ZlModel.Generated.Registry
 import ZlModel.Registry
 import ZlModel.Codec
+import ZlModel.Ip
 open Zl Zl.Proto
 
 namespace Zl.Driver
@@ -193,11 +194,28 @@ def opSrcList (fields : List String) : String :=
     | .error _ => "sl-err"
   | _ => "bad-op"
 
+
+/-! ### IP ops -/
+
+def natOf (s : String) : Nat := s.toNat?.getD 0
+
+def opIp (kind : String) (fields : List String) : String :=
+  match kind, fields with
+  | "ipres", [w, v] => b2s (isReserved ⟨natOf w, natOf v⟩)
+  | "ipgu", [w, v] => b2s (Addr.isGlobalUnicast ⟨natOf w, natOf v⟩)
+  | "ipnet", [w, v, p] => b2s (intersectsReserved ⟨⟨natOf w, natOf v⟩, natOf p⟩)
+  | "ipcont", [w, v, p, xw, xv] => b2s (Net.contains ⟨⟨natOf w, natOf v⟩, natOf p⟩ ⟨natOf xw, natOf xv⟩)
+  | _, _ => "bad-op"
+
 def step (line : String) : String :=
   match line.splitOn "\t" with
   | "fw" :: rest => opFw rest
   | "filter" :: rest => opFilter rest
   | "register" :: rest => opRegister rest
+  | "ipres" :: rest => opIp "ipres" rest
+  | "ipgu" :: rest => opIp "ipgu" rest
+  | "ipnet" :: rest => opIp "ipnet" rest
+  | "ipcont" :: rest => opIp "ipcont" rest
   | "enc" :: rest => opEnc rest
   | "dec" :: rest => opDec rest
   | "src" :: rest => opSrc rest
